@@ -451,6 +451,7 @@ func raceSite(blk string) string {
 func init() {
 	replayRegistrars = append(replayRegistrars, func() {
 		registerReplay("C16/workloads", runIsoCase)
+		registerReplay("C16/release-during-notification", runNotifyRaceCase)
 	})
 }
 
@@ -459,6 +460,29 @@ func TestC16(t *testing.T) {
 	defer h.Finish()
 	env := h.Env
 	maxW := env.Pick(16, 64)
+	// directed schedules that are too rare for the random workloads: the last
+	// fid of a File disappears while a rename is inside its notification
+	if env.Shard == 0 {
+		for _, ren := range notifyRaceRenames {
+			for extra := 0; extra <= 2; extra++ {
+				for _, native := range []bool{false, true} {
+					c := notifyRaceCase{Native: native, Rename: ren, Extra: extra}
+					f := runNotifyRaceCase(c)
+					h.Case(evid.HashJSON(c), true, "directed:release-during-rename-notification")
+					if f != nil && strings.HasPrefix(f.Sig, "harness-") {
+						t.Errorf("HARNESS-ERROR %s", f.Msg)
+						continue
+					}
+					if f != nil && !strings.HasPrefix(f.Sig, "hang-") && !strings.HasPrefix(f.Sig, "handle-did-not-return") {
+						continue // lifecycle verdicts belong to C05
+					}
+					if h.report("release-during-notification", f, c) {
+						return
+					}
+				}
+			}
+		}
+	}
 	shrinkTime = "1s" // a stuck workload costs 30 s per attempt: do not spend minutes shrinking it
 	defer func() { shrinkTime = "20s" }()
 	rapidCases(h, "workloads", env.PerShard(env.Pick(400, 3200)), func(rt *rapid.T) isoCase {
